@@ -211,3 +211,34 @@ Theorem C15_chrome_json_legacy_refuted :
   /\ json_ok (chrome_doc true [(100, [112])] [] [118] [100] None) = true.
 Proof. exact chrome_doc_legacy_refuted. Qed.
 Print Assumptions C15_chrome_json_legacy_refuted.
+
+(* ---------------------------------------------------------------------------------------------------------- *)
+(* Callees run inside their caller: along every non-empty name path the calls made from the calls on that path
+   last, together, at most as long as those calls (open calls included). *)
+Theorem C15_callees_inside_caller : forall tids s q,
+  wf_stream s = true -> NoDup tids -> (forall r, In r s -> In (fst r) tids) -> q <> [] ->
+  child_time_of q (ref_calls tids s) <= time_path q (ref_calls tids s).
+Proof. exact child_le_time. Qed.
+Print Assumptions C15_callees_inside_caller.
+
+(* Hence the subtraction in the sampled flame count never wraps: when the per-path totals fit 64 bits, (p, c) is a
+   printed line of `dump --flame-graph --sample-time=S` iff the trace has calls along p and
+   c = (total time along p - whole samples shown for the callees) / S is not 0.   (closes C15_flame_sampled_partial) *)
+Theorem C15_flame_sampled : forall sample rootname tids s,
+  wf_stream s = true -> NoDup tids -> (forall r, In r s -> In (fst r) tids) -> sample <> 0 ->
+  (forall p, time_path p (ref_calls tids s) < W64) ->
+  forall p c, In (p, c) (flame_rows sample (graph_build sample rootname tids s)) <->
+    (count_path p (ref_entries [] s) <> 0
+     /\ c = (time_path p (ref_calls tids s) - sampled_child_time sample p (ref_calls tids s)) / sample
+     /\ c <> 0).
+Proof. exact flame_sampled_exact. Qed.
+Print Assumptions C15_flame_sampled.
+
+(* DESIGN.md's bound `sum of count * sample <= total time` is FALSE of the code: 1.2 us of run time, 2 samples of 1 us
+   (replayed on the real uftrace by the tie: `main 1`, `main;f 1`). *)
+Theorem C15_flame_total_bound_refuted :
+  wf_stream overcount_witness = true
+  /\ flame_rows 1000 (graph_build 1000 [] [100] overcount_witness) = [([[109]], 1); ([[109]; [102]], 1)]
+  /\ time_path [[109]] (ref_calls [100] overcount_witness) = 1200.
+Proof. exact flame_total_bound_refuted. Qed.
+Print Assumptions C15_flame_total_bound_refuted.
